@@ -659,18 +659,29 @@ def _fold_fieldwise_overwrites(prog, f, r):
         need = {n for n in names if not n.startswith("_pad")}
         if len(need) < 3 or not need <= got:
             continue
-        # only an unconditional reset counts: every field store lies on every path to a return (conditional `set_if_some!`-style
-        # updates that happen to cover all fields are not an overwrite)
+        # the field stores form one overwrite: some store block dominates all the others, and from it every success path to a return
+        # passes every other store block (once the overwrite starts it completes) - conditional `set_if_some!`-style updates that happen to
+        # cover all fields are not an overwrite
         rets = [i for i, bb in enumerate(f.blocks) if bb["t"]["k"] == "return"]
         from . import analysis as _A
-        errb = set(_A.error_blocks(f))          # success paths only: an early `return Err(..)` before the reset does not make it conditional
-        uncond = True
-        for n in need:
-            blocks = {b for (b, _, k) in r[(o, "=" + n)] if k == "assign"}
-            reach = f.reachable(0, blocks | errb) if 0 not in blocks else set()
-            if any(x in reach for x in rets):
-                uncond = False
+        errb = set(_A.error_blocks(f))
+        per_field = {n: {b for (b, _, k) in r[(o, "=" + n)] if k == "assign"} for n in need}
+        allb = set().union(*per_field.values())
+        head = None
+        for c in sorted(allb):
+            if all(x == c or x not in f.reachable(0, {c}) for x in allb):
+                head = c
                 break
+        uncond = head is not None
+        if uncond:
+            for n in need:
+                blocks = per_field[n]
+                if head in blocks:
+                    continue
+                reach = f.reachable(head, blocks | errb)
+                if any(x in reach for x in rets):
+                    uncond = False
+                    break
         if not uncond:
             continue
         first = min(b for n in need for (b, _, k) in r[(o, "=" + n)] if k == "assign")
@@ -683,7 +694,18 @@ def _fold_fieldwise_overwrites(prog, f, r):
                         r[key] = rest
                     else:
                         del r[key]
-        r.setdefault((o, "*"), []).append((first, sp, "assign"))
+        # `x.slots[i].a = ..; x.slots[i].b = ..; ...` overwrites the element of the parent's field, exactly like `x.slots[i] = S { .. }`
+        parents = set()
+        for bb in f.blocks:
+            for st in bb["s"]:
+                pr = [e for e in (st.get("d") or {}).get("p") or [] if isinstance(e, dict) and "f" in e and not e["o"].startswith("(")]
+                if pr and pr[-1]["o"] == o and pr[-1]["n"] in need:
+                    parents.add((pr[-2]["o"], pr[-2]["n"]) if len(pr) >= 2 else None)
+        if len(parents) == 1 and None not in parents:
+            po, pn = next(iter(parents))
+            r.setdefault((po, "=" + pn), []).append((first, sp, "assign"))
+        else:
+            r.setdefault((o, "*"), []).append((first, sp, "assign"))
 
 
 def place_write_targets(f, pl, borrow=False):
